@@ -24,6 +24,12 @@ CLAIMS = {
  'C09': dict(engine='netmc', ref='DESIGN.md §2, §5 C09',
    text='Plugin programs: every list of 1..n recording plugins (n=2 quick, n=3 thorough) loaded through the real flag parser, each plugin carrying one of 12 (hook, behaviour) options over before_upstream_connection / handle_client_request / handle_upstream_chunk / on_access_log / resolve_dns x pass / modify / drop / reject, in every order, with authentication off and on (good and bad credentials), under 8 endings (normal with a follow-up request, client abort before/after the request or response, upstream close on accept / after the response, connect refusal, DNS failure). A reference interpreter of the documented chain predicts per-hook call order and short-circuit, request threading, the connect target, the forwarded request, the rejection response and the client byte stream; access-log chain and connection-close hook must have run exactly once whenever the first request was completely received.',
    note=NETMC_NOTE + ' d=0 (program and history enumeration). A rejection raised in handle_client_request happens after the upstream connection was opened; the oracle requires no request bytes at the origin there, and no connection attempt only for before_upstream_connection rejections.', technique='exhaustive enumeration of plugin programs and connection endings on the real event loop against a reference interpreter'),
+ 'C12': dict(engine='netmc', ref='DESIGN.md §2, §5 C12',
+   text='Route tables (static routes with one or two upstream URLs from a 6-URL alphabet with/without explicit port and path and both schemes, overlapping and disjoint route pairs in both orders, dynamic routes returning a Url or a literal response) x 9 request paths (matching none/one/several routes, query, case) x GET / POST / chunked POST x Host-rewrite off/on are served by the real reverse proxy; every outcome of random.choice is branched. urllib.parse.urlsplit is the independent URL reader: exactly one connection to (host, explicit port or 80/443) of an upstream URL of a matching route, that URL path as request path, method/body/headers preserved, Host rewritten iff enabled, response relayed unmodified; no match => h11-valid 404 and empty connect/DNS log.',
+   note=NETMC_NOTE + ' TLS upstreams: only target selection is observed (the peer hangs up before the handshake).', technique='exhaustive enumeration of a finite configuration/input lattice on the real event loop with full branching of the random upstream choice'),
+ 'C13': dict(engine='netmc', ref='DESIGN.md §2, §5 C13',
+   text='Every request path "/"+t1..tn, n <= L (L=4 over 11 tokens quick; L=6 over 9 tokens thorough) over {a, b.txt, /, ., .., %2e%2e, %2f, ?x, ?../, root-evil, secret.txt} plus hand-written traversal spellings, with compression on and off, is requested from the real static server over a real directory tree holding sentinel files inside and just outside the root (incl. a prefix sibling directory). 200 is allowed only for a path that stays inside the root and only with exactly that file (after gunzip); any other origin-form path must get an h11-valid 404; no response may contain an outside sentinel; plain existing inside files must be served.',
+   note=NETMC_NOTE + ' d=0 (input enumeration). Percent-encodings are not decoded by the server, so they name literal files.', technique='bounded-exhaustive input enumeration (all token sequences up to length L) on the real event loop against file-system ground truth'),
  'C10': dict(engine='netmc', ref='DESIGN.md §2, §5 C10', category='model_checking',
    text='For every history of the C05 corpus (all roles, every abort kind, connect failures, protocol errors) once and three times in a row, for idle-timeout histories under the virtual clock, and for every single injected I/O error / postponed peer action on top, the state at quiescence (executor still running, after gc.collect()) is inspected: /proc/self/fd minus harness descriptors equals the snapshot before the first connection, and works / registered events / unfinished tasks / selector map are back to empty.',
    note=NETMC_NOTE + ' A socket closed only by the cyclic GC counts as released.', technique='stateless model checking of the implementation with fault enumeration and a kernel-object census at quiescence'),
